@@ -334,9 +334,20 @@ def render_rule(rep, prog, cfg):
         if name.endswith("filter::Filter"):
             continue        # filter expressions: C11 (not applicable)
         n += 1
+        # what is written may go through a private helper of the module (`render_escaped`) or through the renderer of the wrapped
+        # value (`self.0.render(buf)` for a newtype): spliced in (A12), so that the write events are those of the whole renderer
         sh, problems = render_shapes(prog, b)
         got = sorted(" ; ".join(x) for x in sh)
         exp = RENDER_EXPECT.get(name)
+        if exp is not None and (problems or got != sorted(exp)):
+            from ..inline import inlined, module_private_helpers
+            base_want = module_private_helpers(b)
+            b2 = inlined(prog, b, lambda cb: base_want(cb) or norm(cb.name).endswith(" as mpd_protocol::command::Argument>::render"), depth=2)
+            if b2.raw.get("inlined"):
+                sh2, problems2 = render_shapes(prog, b2)
+                got2 = sorted(" ; ".join(x) for x in sh2)
+                if not problems2 and got2 == sorted(exp):
+                    sh, problems, got = sh2, problems2, got2
         if exp is None:
             rep.note("renderer_not_in_reference_table_%s_%s" % (cfg, name), got)
             continue
